@@ -66,10 +66,11 @@ def pred_c05(prog, ob):
             ok = any(anames == outline_of(fm, fr["name"]) for fr in fm["frames"]) or \
                  any(anames == head_of(fm, fr["name"]) for fr in fm["frames"])
             if not ok:
-                return "tick %d: framer %s status %d has actives %r: neither an outline nor a head" % (
-                    tk, fm["name"], r, anames)
+                return ("actives-not-outline", "tick %d: framer %s status %d has actives %r: neither an outline nor "
+                        "a head" % (tk, fm["name"], r, anames))
         elif r in (0, 3) and anames:
-            return "tick %d: framer %s status %d still has active frames %r" % (tk, fm["name"], r, anames)
+            return ("stopped-with-actives", "tick %d: framer %s status %d still has active frames %r" % (
+                tk, fm["name"], r, anames))
     return None
 
 
@@ -87,25 +88,61 @@ def enter_exit_events(prog, ob):
     return out
 
 
+def _aux_uses(prog, name):
+    n = 0
+    for fm in prog["framers"]:
+        for fr in fm["frames"]:
+            n += fr.get("auxes", []).count(name)
+            n += sum(1 for pa in fr.get("preacts", []) if pa[0] == "aux" and pa[2] == name)
+    return n
+
+
 def pred_c06(prog, ob, crashed=False):
     """each frame's enter and exit actions alternate starting with enter; after a run that ended
-    without an injected crash every entered frame has been exited"""
+    without an injected crash every entered frame of a scheduled framer has been exited.
+    returns None or (finding key, description)"""
+    ix = kernel.Index(prog)
+    tid_of = {fm["name"]: ix.tid[fm["name"]] for fm in prog["framers"]}
     state = {}
-    for tk, fmn, frn, kind in enter_exit_events(prog, ob):
-        k = (fmn, frn)
+    suspended = {}      # framer -> True when its last logged outline was shorter than its entered frames
+    tab = tag_table(prog)
+    for e in ob["trace"]:
+        if e[0] == "send":
+            fmn = [n for n, t in tid_of.items() if t == e[2]][0]
+            entered = [k for k, v in state.items() if v == "in" and k[0] == fmn]
+            suspended[fmn] = len(entered) > len(e[5]) > 0 or (suspended.get(fmn, False) and not e[5] and bool(entered))
+            continue
+        if e[2] not in tab:
+            continue
+        fmn, frn, ctx, i = tab[e[2]]
+        if i != 0 or ctx not in ("enacts", "exacts"):
+            continue
+        tk, k = e[1], (fmn, frn)
         cur = state.get(k, "out")
-        if kind == "enter":
+        if ctx == "enacts":
             if cur == "in":
-                return "tick %d: frame %s.%s entered twice without exit" % (tk, fmn, frn)
+                if any(v for v in suspended.values()):
+                    return ("suspended-frames-not-exited",
+                            "tick %d: frame %s.%s entered twice without exit (frames suspended under a conditional "
+                            "aux were not exited)" % (tk, fmn, frn))
+                if _aux_uses(prog, fmn) > 1:
+                    return ("aux-claimed-twice", "tick %d: frame %s.%s of shared auxiliary entered twice without exit"
+                            % (tk, fmn, frn))
+                return ("enter-twice", "tick %d: frame %s.%s entered twice without exit" % (tk, fmn, frn))
             state[k] = "in"
         else:
             if cur != "in":
-                return "tick %d: frame %s.%s exited without being entered" % (tk, fmn, frn)
+                return ("exit-without-enter", "tick %d: frame %s.%s exited without being entered" % (tk, fmn, frn))
             state[k] = "out"
     if not crashed:
-        left = [k for k, v in state.items() if v == "in"]
+        sched = set(fm["name"] for fm in prog["framers"] if fm["sched"] in ("active", "inactive"))
+        left = [k for k, v in state.items() if v == "in" and k[0] in sched]
         if left:
-            return "run returned with frames still entered: %r" % (left,)
+            if any(suspended.get(k[0]) for k in left):
+                return ("suspended-frames-not-exited",
+                        "run returned with frames still entered %r: frames suspended under a conditional aux are not "
+                        "exited by stop/abort/transitions (exits are computed from the truncated outline)" % (left,))
+            return ("frames-left-entered", "run returned with frames still entered: %r" % (left,))
     return None
 
 
@@ -123,10 +160,10 @@ def pred_c03(prog, ob, crashed=False):
         elif e[2] in taskables:
             break
     if len(set(sweep)) != len(sweep):
-        return "a tasker was aborted twice in the final sweep: %r" % (sweep,)
+        return ("sweep-twice", "a tasker was aborted twice in the final sweep: %r" % (sweep,))
     for t in taskables:
         if ob["status"][t] != 3:
-            return "tasker %d not aborted when run() returned (status %d)" % (t, ob["status"][t])
+            return ("not-aborted", "tasker %d not aborted when run() returned (status %d)" % (t, ob["status"][t]))
     return None
 
 
@@ -145,8 +182,8 @@ def pred_c09(prog, ob):
         if fmn in plain and fmn not in cond and kind == "enter":
             mains = plain[fmn]
             if not any(inside.get(m) for m in mains):
-                return "tick %d: aux %s frame %s entered while none of its main frames %r is entered" % (
-                    tk, fmn, frn, mains)
+                return ("aux-outside-main", "tick %d: aux %s frame %s entered while none of its main frames %r is "
+                        "entered" % (tk, fmn, frn, mains))
     return None
 
 
@@ -179,49 +216,63 @@ def pred_c11(prog, ob):
             count[t] = 0
             entered_now.discard(fmn_of[t])
             if r in RUNNING and (float.fromhex(el) != 0.0 or rc != 0):
-                return "tick %d: framer %s re-entered but elapsed=%s recurred=%d" % (tk, fmn_of[t], el, rc)
+                return ("clock-not-reset", "tick %d: framer %s re-entered but elapsed=%s recurred=%d" % (
+                    tk, fmn_of[t], el, rc))
         elif c == 2 and r == 2 and t in since:
             count[t] += 1
             exp = stamps[tk] - since[t]
             if float.fromhex(el) != exp or rc != count[t]:
-                return "tick %d: framer %s elapsed=%s recurred=%d, expected %r / %d" % (
-                    tk, fmn_of[t], el, rc, exp, count[t])
+                return ("clock-wrong", "tick %d: framer %s elapsed=%s recurred=%d, expected %r / %d" % (
+                    tk, fmn_of[t], el, rc, exp, count[t]))
     return None
 
 
 PREDS = {"C03": pred_c03, "C05": pred_c05, "C06": pred_c06, "C09": pred_c09, "C11": pred_c11}
 
 
-def kernel_check(ctx, pid, runs, preds, rule, extra_assumptions=()):
-    """shared body of the kernel property checks: build Props, run correspondence batches, settle with
-    the implementation-only predicates as the search for a failing input"""
+def kernel_check(ctx, pid, runs, preds, rule, extra_assumptions=(), corpus=()):
+    """shared body of the kernel property checks: build Props, run correspondence batches, evaluate the
+    implementation-only statements on every run; a failing statement is a violation (known findings excepted)"""
     ctx.rule = rule
     ctx.assumptions = [
         "harness doubles in the check process only: Printer.action recorder, runner proxies, store.changeStamp "
         "wrapper (tick count, tick-limit KeyboardInterrupt); kernel language excludes clones/rear/raze, markers, "
-        "loggers/servers, fiats in benter context",
+        "loggers/servers, fiats in benter context; generated programs never list one original auxiliary twice in "
+        "one outline / family nor as plain and conditional auxiliary of the same frame (known findings)",
     ] + list(extra_assumptions)
     ctx.coq_build("%s/Props.v" % pid)
     allm = []
+    for i, (p, ca) in enumerate(corpus):
+        ob = kernel.run_impl(p, ca, ctx.work, "corpus%d" % i, maxticks=ctx.n(20, 36))
+        ctx.case({"corpus": i, "flo": kernel.render_flo(p)}, nontrivial=True, kind="corpus")
+        allm.append((p, ca, ob, False))
     for r in runs:
         allm += kernel.correspond(ctx, ctx.n(r["quick"], r["thorough"]), features=r.get("features"),
                                   ticks=r.get("ticks", (0.125,)), sizes=r.get("sizes", (2, 4)),
                                   crash=r.get("crash", "none"), maxticks=ctx.n(20, 36), label=r["label"])
+    seen = set()
+    for p, ca, ob, bad in allm:
+        if "error" in ob:
+            continue
+        for pr in preds:
+            f = PREDS[pr]
+            res = f(p, ob, crashed=ca is not None) if pr in ("C03", "C06") else f(p, ob)
+            if res:
+                key, why = res
+                key = "%s:%s" % (pr, key)
+                if key in seen:
+                    continue
+                seen.add(key)
+                # the implementation alone fails the executable statement on this program
+                ctx.violation({"flo": kernel.render_flo(p), "crash_at": ca, "why": why,
+                               "impl_trace_head": ob["trace"][:80], "contradicts": "%s.Props / statement %s" % (pid, pr)},
+                              True, key)
 
     def search():
         for p, ca, ob, bad in allm:
-            if "error" in ob:
-                if ob["error"] in ("Hang",):
-                    continue
+            if "error" in ob and ob["error"] != "Hang":
                 return {"key": "%s:impl-error:%s" % (pid, ob["error"]), "flo": kernel.render_flo(p),
                         "crash_at": ca, "error": ob, "contradicts": "%s.Props (kernel language left)" % pid}
-            for pr in preds:
-                f = PREDS[pr]
-                why = f(p, ob, crashed=ca is not None) if pr in ("C03", "C06") else f(p, ob)
-                if why:
-                    return {"key": "%s:%s" % (pr, why.split(":")[-1].strip().split(" ")[0]),
-                            "flo": kernel.render_flo(p), "crash_at": ca, "why": why,
-                            "impl_trace_head": ob["trace"][:60], "contradicts": "%s.Props" % pid}
         return None
 
     ctx.settle(search)
